@@ -1899,3 +1899,194 @@ def run_queryrest(prog, ctx=None):
                    "" if not bad else "`%s` follows the result on a path that never looked at the unmatched rest of the path (%s.len): a partial match is taken for the node itself" % (
                        norm(show(bad[0], f)), norm(show(e["args"][1], f)).lstrip("&")))
     return res
+
+
+RELEASE_SUFFIX = ("_fini", "_clear", "_close")
+
+
+def run_localfini(prog, ctx=None):
+    """LOCALFINI: a local object that a loop keeps handing to callees (`&L`: it accumulates what they allocate) and that the
+    function releases behind the loop (`X_fini(&L)`, `mpt_node_clear(&L)`, `mpt_stream_close(&L)`) is released on every way
+    out of the loop: from each such call inside a loop no return is reachable without passing the release call."""
+    res = Result("LOCALFINI")
+    from .rules_node import _natural_loops
+    for f in sorted(prog.functions.values(), key=lambda f: (f.file, f.line, f.qn)):
+        if f.nocfg or f.file.startswith("examples/"):
+            continue
+        inloop = set()
+        for h, body in _natural_loops(f).items():
+            inloop |= body
+        rel = {}      # local id -> (name, release callee, blocks)
+        for b, i, e in f.elements():
+            if e.get("k") == "call" and e.get("args"):
+                nm = callee_name(e) or ""
+                a = strip(e["args"][0], all_casts=True)
+                if nm.endswith(RELEASE_SUFFIX) and a.get("k") == "un" and a.get("op") == "&":
+                    x = strip(a["e"], lvalue_to_rvalue=False)
+                    if x.get("k") == "ref" and x["d"].get("dk") == "local" and f.T(x.get("t")).get("k") == "record":
+                        r = rel.setdefault(x["d"]["id"], (x["d"]["n"], nm, set()))
+                        r[2].add(b.id)
+        for lid, (lname, rname, rblocks) in sorted(rel.items()):
+            arms = []
+            for b, i, e in f.elements():
+                if e.get("k") == "call":
+                    nm = callee_name(e) or ""
+                    if nm == rname:
+                        continue
+                    for a in e.get("args", []):
+                        a = strip(a, all_casts=True)
+                        if a.get("k") == "un" and a.get("op") == "&":
+                            x = strip(a["e"], lvalue_to_rvalue=False)
+                            if x.get("k") == "ref" and x["d"].get("id") == lid and b.id in inloop:
+                                arms.append((b, i, e))
+            if not arms:
+                continue
+            bad = None
+            for b, i, e in arms:
+                # the rest of this block, then everything reachable without a release block
+                if b.id in rblocks:
+                    continue
+                seen = set()
+                stack = [s for s in b.succ if s is not None]
+                leak = any(x.get("k") == "ret" for x in f.blocks[b.id].el[i + 1:])
+                while stack and not leak:
+                    x = stack.pop()
+                    if x in seen or x in rblocks:
+                        continue
+                    seen.add(x)
+                    blk = f.blocks[x]
+                    if x == f.exit or any(el.get("k") == "ret" for el in blk.el):
+                        leak = True
+                        break
+                    stack.extend(s for s in blk.succ if s is not None)
+                if leak:
+                    bad = e
+                    break
+            ok = bad is None
+            res.ob("%s:%s" % (f.qn, lname), ok, f, (bad or {}).get("l", f.line),
+                   "" if ok else "%s: after `%s` (line %s) a return is reachable without %s(&%s), which other ways out of the function call" % (
+                       f.qn, norm(show(bad, f))[:50], bad.get("l"), rname, lname))
+            res.count("locals")
+    if res.counters.get("locals", 0) < 1:
+        raise Broken("LOCALFINI: no local that is used in a loop and released behind it found")
+    return res
+
+
+def _reads_field(g, pidx, field, _memo={}):
+    """callee g reads member `field` of the object its parameter pidx points to (anywhere, not as the target of a plain store)"""
+    key = (g.key(), pidx, field)
+    if key in _memo:
+        return _memo[key]
+    out = False
+    if not g.nocfg and pidx < len(g.params):
+        pid = g.params[pidx]["id"]
+        lhs = set()
+        for b, i, n in g.walk_all():
+            if n.get("k") == "bin" and n.get("op") == "=":
+                l = strip(n["a"], lvalue_to_rvalue=False)
+                lhs.add(id(l))
+        writes = False
+        # locals that only ever hold the entry value of the member (`sep = path->sep`): storing them back changes nothing
+        holds = {}
+        for b, i, n in g.walk_all():
+            src = None
+            if n.get("k") == "bin" and n.get("op") == "=":
+                l = strip(n["a"], lvalue_to_rvalue=False)
+                if l.get("k") == "ref" and l["d"].get("dk") == "local":
+                    src = (l["d"]["id"], n["b"])
+            elif n.get("k") == "decl":
+                for v in n.get("vars", []):
+                    if v.get("init") is not None:
+                        holds.setdefault(v["id"], []).append(v["init"])
+            if src:
+                holds.setdefault(src[0], []).append(src[1])
+
+        def is_entry_copy(e):
+            e = strip(e, all_casts=True)
+            if e.get("k") != "ref" or e["d"].get("id") not in holds:
+                return False
+            for r in holds[e["d"]["id"]]:
+                r = strip(r, all_casts=True)
+                if not (r.get("k") == "mem" and r.get("f") == field and strip(r["b"], all_casts=True).get("k") == "ref"
+                        and strip(r["b"], all_casts=True)["d"].get("id") == pid):
+                    return False
+            return True
+        restores = set()
+        for b, i, n in g.walk_all():
+            if n.get("k") == "bin" and n.get("op") == "=":
+                l = strip(n["a"], lvalue_to_rvalue=False)
+                if l.get("k") == "mem" and l.get("f") == field and is_entry_copy(n["b"]):
+                    restores.add(id(l))
+        for b, i, n in g.walk_all():
+            if n.get("k") == "mem" and n.get("f") == field:
+                bs = strip(n["b"], all_casts=True)
+                if bs.get("k") == "ref" and bs["d"].get("id") == pid:
+                    if id(n) in restores:
+                        continue
+                    if id(n) in lhs:
+                        writes = True
+                    else:
+                        out = True
+            if n.get("k") in ("un",) and n.get("op") in ("++", "--"):
+                t = strip(n["e"], lvalue_to_rvalue=False)
+                if t.get("k") == "mem" and t.get("f") == field:
+                    writes = True
+            if n.get("k") == "bin" and n.get("op", "").endswith("=") and n["op"] not in ("=", "==", "!=", "<=", ">="):
+                t = strip(n["a"], lvalue_to_rvalue=False)
+                if t.get("k") == "mem" and t.get("f") == field:
+                    writes = True
+        if writes:
+            out = False       # an in/out member: the caller may well set it again afterwards
+    _memo[key] = out
+    return out
+
+
+def run_setbeforeuse(prog, ctx=None):
+    """SETBEFOREUSE: a member of a local object that the function sets from one of its own parameters is set before the object
+    is first handed to a callee that reads that member (`where.sep = sep` before `mpt_path_set(&where, ..)`): a call that can run
+    ahead of the store works with the initialiser's value instead of the caller's."""
+    res = Result("SETBEFOREUSE")
+    files = set(ctx.get("files", [])) if ctx else None
+    for f in funcs_of(prog, files):
+        pids = {p["id"] for p in f.params}
+        stores = []
+        for b, i, e in f.elements():
+            for n in walk_own(e):
+                if n.get("k") == "bin" and n.get("op") == "=":
+                    l = strip(n["a"], lvalue_to_rvalue=False)
+                    if l.get("k") == "mem" and not l.get("arrow"):
+                        base = strip(l["b"], lvalue_to_rvalue=False)
+                        if base.get("k") == "ref" and base["d"].get("dk") == "local" and f.T(base.get("t")).get("k") == "record":
+                            if any(m.get("k") == "ref" and m["d"].get("id") in pids for m in walk(n["b"])):
+                                stores.append((b, i, n, base["d"]["id"], base["d"]["n"], l["f"]))
+        if not stores:
+            continue
+        calls = []
+        for b, i, e in f.elements():
+            if e.get("k") == "call" and e.get("fn"):
+                for k, a in enumerate(e.get("args", [])):
+                    a = strip(a, all_casts=True)
+                    if a.get("k") == "un" and a.get("op") == "&":
+                        x = strip(a["e"], lvalue_to_rvalue=False)
+                        if x.get("k") == "ref" and x["d"].get("dk") == "local":
+                            calls.append((b, i, e, x["d"]["id"], k))
+        for b, i, n, lid, lname, fld in stores:
+            bad = None
+            for cb, ci, c, clid, k in calls:
+                if clid != lid:
+                    continue
+                gs = [g for g in prog.resolve_call(f, c) if _reads_field(g, k, fld)]
+                if not gs:
+                    continue
+                # can the call run before the store?  (same block: earlier element; else the store is reachable from the call)
+                before = (cb.id == b.id and ci < i) or (cb.id != b.id and b.id in f.reachable_from(cb.id))
+                after_possible = (cb.id == b.id and ci > i) or (cb.id != b.id and cb.id in f.reachable_from(b.id))
+                if before and not (cb.id != b.id and after_possible and cb.id in f.reachable_from(b.id) and b.id in f.reachable_from(cb.id)):
+                    bad = (c, gs[0])
+                    break
+            ok = bad is None
+            res.ob("%s:%s.%s" % (f.qn, lname, fld), ok, f, n.get("l", f.line),
+                   "" if ok else "%s: `%s` comes after `%s` (line %s), and %s() reads ->%s: the call works with the initial value, not the caller's" % (
+                       f.qn, norm(show(n, f))[:40], norm(show(bad[0], f))[:50], bad[0].get("l"), bad[1].name, fld))
+            res.count("stores")
+    return res
